@@ -122,6 +122,8 @@ def run(ctx):
         if pl(a) != expp:
             ctx.violation(what="extended properties", cell=rec["line"], observed=a["props"], required=str(expp))
         for n, snap in zip(src_names, src_snaps):
+            if n == recv_name:
+                continue        # the receiver appended to itself: it is the one object that is meant to change
             if rec["after"][n] != snap:
                 ctx.violation(what="source modified", cell=rec["line"], observed=rec["after"][n][:200], required=snap[:200])
 
